@@ -421,6 +421,16 @@ pub fn gen(prop: &str, tier: &str, seed: u64) -> Out {
                 o.push(format!("encinto {} {}", hex(&pre), t));
                 o.push(format!("spec:encinto {} {}", hex(&pre), t));
             }
+            // every other buffer-writing function, with non-empty prior content: the oracle
+            // (spec answer) does not depend on the prefix, so agreement = "only appends"
+            for sub in ["C06", "C13"] {
+                let o2 = gen(sub, tier, seed ^ 0x17);
+                for l in o2.lines {
+                    let mut it = l.split(' ');
+                    let _op = it.next();
+                    if let Some(pre) = it.next() { if pre != "-" && r.chance(1, 4) { o.push(l.clone()); } }
+                }
+            }
         }
         _ => {}
     }
